@@ -5,6 +5,7 @@ from .stmt import (
     Stmt, IfBlock, VarDeclClause, ArrayDimRange, CallStmt,
     ReturnValueSetStmt, FunctionBlock, SubBlock, SimpleCaseClause,
     RangeCaseClause, CompareCaseClause, CaseElseStmt, SelectBlock,
+    DimStmt, TypeBlock, DeclareStmt,
 )
 from .expr import Type, Expr, Lvalue, NumericLiteral, FuncCall
 from .program import Label, LineNo
@@ -411,6 +412,17 @@ class Pass1(CompilePass):
             EC.ELSE_WITHOUT_IF,
             'ELSE outside IF block',
             node=node)
+
+    def process_var_clause_pre(self, node):
+        # "name AS type" is part of DIM, TYPE, DECLARE, SUB and
+        # FUNCTION; on its own it is the field declaration of a TYPE
+        # block written outside one
+        if not isinstance(node.parent, (DimStmt, TypeBlock, DeclareStmt,
+                                        SubBlock, FunctionBlock)):
+            raise CompileError(
+                EC.ILLEGAL_IN_TYPE_BLOCK,
+                'Field declaration outside TYPE block',
+                node=node)
 
     def process_case_pre(self, node):
         if not isinstance(node.parent, SelectBlock):
